@@ -41,6 +41,23 @@ def cases(ctx, depth):
     return out
 
 
+def score_unit(cls, A):
+    """the natural magnitude of a score: 1 for the f-divergences, sqrt(|kernel|) for MMD, |cost| for Wasserstein (both are
+    positively homogeneous in the affinity); tolerances are taken relative to it so that tiny and huge affinities are judged
+    as strictly as ordinary ones"""
+    if A is None or cls not in ("mmd", "wass"):
+        return 1.0
+    m = float(np.abs(A).max())
+    if m == 0:
+        return 1.0
+    return float(np.sqrt(m)) if cls == "mmd" else m
+
+
+def score_tol(cls, A):
+    u = score_unit(cls, A)
+    return {"mmd": 2e-6 * u, "wass": 1e-7 * u}.get(cls, 1e-9)
+
+
 def reuse_sequences(ctx, eps, grad=False):
     """`evaluate` is a function of its arguments: ONE objective object evaluated on a sequence of different inputs of the
     same shape (different predictions, different affinities, with and without return_grad in between) must give, at every
@@ -49,42 +66,120 @@ def reuse_sequences(ctx, eps, grad=False):
     out = []
     how = "one gemclus.gemini.<Class> object evaluated on the listed inputs in order; the last one is judged"
     for cls, ovo in gl.CONFIGS:
-        for rep in range(2 if ctx.tier == "quick" else 8):
+        for rep in range(3 if ctx.tier == "quick" else 10):
             n, K = [(4, 2), (5, 3), (6, 3), (7, 4)][rs.randint(4)]
             g = gl.real_gemini(cls, ovo, eps)
             hist = []
+            # variants: fresh arrays / ONE buffer refilled in place (same Python object, new content) / affinities obtained
+            # from a second object's compute_affinity interleaved with the evaluations
+            variant = ["fresh", "buffer", "fresh"][rep % 3] if cls in ("mmd", "wass") else "fresh"
+            buf = np.zeros((n, n)) if variant == "buffer" else None
+            # magnitudes of the affinity: MMD down to 1e-16; Wasserstein only to 1e-6 (POT's network simplex itself returns plans
+            # ~10% too expensive for costs of magnitude 1e-16 — the transport solver is a parameter of the property, not its subject)
+            mag = 1.0
+            if cls == "mmd":
+                mag = float(rs.choice([1.0, 1.0, 1e-16, 1e-8, 1e6]))
+            if cls == "wass":
+                mag = float(rs.choice([1.0, 1.0, 1e-6, 1e4]))
             for step in range(3):
                 P = gl.gen_P(rs, n, K, ["soft", "dirichlet", "sharp"][rs.randint(3)])
                 A = None
                 if cls == "mmd":
-                    A = gl.gen_affinity(rs, n, gl.KERNELS[rs.randint(len(gl.KERNELS))])
+                    A = gl.gen_affinity(rs, n, gl.KERNELS[rs.randint(len(gl.KERNELS))]) * mag
                 if cls == "wass":
-                    A = gl.gen_affinity(rs, n, gl.METRICS[rs.randint(len(gl.METRICS))])
+                    A = gl.gen_affinity(rs, n, gl.METRICS[rs.randint(len(gl.METRICS))]) * mag
+                if buf is not None:
+                    buf[...] = A
+                    arg = buf
+                else:
+                    arg = None if A is None else A.copy()
                 wg = bool(rs.randint(2)) if not grad else True
-                hist.append({"P": P.tolist(), "A": None if A is None else A.tolist(), "return_grad": wg})
+                hist.append({"P": P.tolist(), "A": None if A is None else A.tolist(), "return_grad": wg,
+                             "affinity_object": variant})
                 try:
-                    r = g.evaluate(P.copy(), None if A is None else A.copy(), return_grad=wg)
+                    r = g.evaluate(P.copy(), arg, return_grad=wg)
                 except Exception as e:
                     ctx.violation(f"evaluate raised {type(e).__name__}: {e} on a reused object", "score:reuse",
                                   {"config": f"{cls}_{'ovo' if ovo else 'ova'}", "sequence": hist}, key=f"reuse-raise:{cls}", how=how)
                     break
                 sc = float(r[0] if wg else r)
                 ctx.compared("score:reuse")
+                ctx.count("reuse:" + variant + (":scaled" if mag != 1.0 else ""))
                 ctx.case(("reuse", cls, ovo, P.tobytes(), None if A is None else A.tobytes(), step), step > 0, None)
                 out.append((cls, ovo, P, A, r if wg else None, list(hist)))
                 try:
                     want = gl.spec_score(cls, ovo, P, A)
                 except RuntimeError:
                     continue
-                scale = 1.0 if A is None else max(1.0, float(np.abs(A).max()))
-                tol = {"mmd": 2e-6 * np.sqrt(scale), "wass": 1e-7 * scale}.get(cls, 1e-9)
+                tol = score_tol(cls, A)
                 if not core.close(sc, want, rtol=tol, atol=tol):
                     ctx.violation(f"evaluation number {step + 1} on one object: score {sc!r} differs from the documented "
                                   f"definition {want!r} for that input", "score:reuse",
                                   {"config": f"{cls}_{'ovo' if ovo else 'ova'}", "sequence": hist}, expected=want, actual=sc,
                                   key=f"reuse:{cls}_{'ovo' if ovo else 'ova'}", how=how)
                     break
+    if not grad:
+        affinity_then_evaluate(ctx, eps, rs)
+        large_n(ctx, eps, rs)
     return out
+
+
+def affinity_then_evaluate(ctx, eps, rs):
+    """two cooperating calls on ONE object: compute_affinity on two data sets of the same size, then the score with each
+    of the two matrices — the value must be the definition for the matrix that was PASSED, whatever was computed last"""
+    import gemclus.gemini as G
+    how = "g = <Class>(kernel/metric=name); A1 = g.compute_affinity(X1); A2 = g.compute_affinity(X2); g(P, A1); g(P, A2)"
+    for cls, ovo in [c for c in gl.CONFIGS if c[0] in ("mmd", "wass")]:
+        for name in (["linear", "rbf", "laplacian"] if cls == "mmd" else ["euclidean", "manhattan"]):
+            n, K, d = int(rs.randint(4, 8)), int(rs.randint(2, 4)), int(rs.randint(1, 4))
+            g = (G.MMDGEMINI(ovo=ovo, kernel=name, epsilon=eps) if cls == "mmd" else G.WassersteinGEMINI(ovo=ovo, metric=name, epsilon=eps))
+            X1, X2 = rs.randn(n, d), rs.randn(n, d) * 3 + 1
+            A1, A2 = g.compute_affinity(X1), g.compute_affinity(X2)
+            P = gl.gen_P(rs, n, K, "soft")
+            for tag, A in (("first", A1), ("second", A2), ("first again", A1)):
+                got = float(g(P.copy(), A))
+                ctx.compared("score:affinity-then-evaluate")
+                ctx.case(("ate", cls, ovo, name, P.tobytes(), A.tobytes(), tag), True, None)
+                try:
+                    want = gl.spec_score(cls, ovo, P, np.asarray(A, float))
+                except RuntimeError:
+                    continue
+                tol = score_tol(cls, A)
+                if not core.close(got, want, rtol=tol, atol=tol):
+                    ctx.violation(f"score with the {tag} of two matrices computed by the same object is {got!r}, the definition for the "
+                                  f"matrix passed gives {want!r}", "score:reuse",
+                                  {"config": f"{cls}_{'ovo' if ovo else 'ova'}", "name": name, "X1": X1.tolist(), "X2": X2.tolist(),
+                                   "P": P.tolist(), "which": tag}, expected=want, actual=got,
+                                  key=f"affinity-then-evaluate:{cls}_{'ovo' if ovo else 'ova'}", how=how)
+                    break
+
+
+def large_n(ctx, eps, rs):
+    """sample counts far beyond the correspondence sizes (the Lean driver is interpreted): oracle only.  Sizes straddle
+    powers of two, rows are sorted by confidence (an implementation that processes the samples in blocks must still weigh
+    every sample equally); with and without return_grad"""
+    sizes = [257, 300, 513] if ctx.tier == "quick" else [255, 256, 257, 300, 511, 513, 640, 777, 1025]
+    how = "gemclus.gemini.<Class>(ovo).evaluate(P, A, return_grad) on a large sample vs harness.gemini_lib.spec_score"
+    for cls, ovo in [c for c in gl.CONFIGS if c[0] != "wass"]:
+        for n in ([sizes[rs.randint(len(sizes))]] if ctx.tier == "quick" else sizes):
+            K = int(rs.randint(2, 5))
+            P = gl.gen_P(rs, n, K, "soft")
+            P = P[np.argsort(P.max(1))]
+            A = gl.gen_affinity(rs, n, "rbf") if cls == "mmd" else None
+            g = gl.real_gemini(cls, ovo, eps)
+            want = gl.spec_score(cls, ovo, P, A)
+            tol = score_tol(cls, A)
+            for wg in (False, True):
+                r = g.evaluate(P.copy(), A, return_grad=wg)
+                got = float(r[0] if wg else r)
+                ctx.compared("score:large-n")
+                ctx.case(("large", cls, ovo, n, K, wg), True, None)
+                if not core.close(got, want, rtol=tol, atol=tol):
+                    ctx.violation(f"n={n}: score {got!r} (return_grad={wg}) differs from the documented definition {want!r}", "score",
+                                  {"config": f"{cls}_{'ovo' if ovo else 'ova'}", "n": n, "K": K, "return_grad": wg, "P": P.tolist(),
+                                   "A": None if A is None else "rbf kernel of the stored seed"}, expected=want, actual=got,
+                                  key=f"score-large-n:{cls}_{'ovo' if ovo else 'ova'}", how=how)
+                    break
 
 
 def run(ctx):
